@@ -266,7 +266,7 @@ PLAN = {
               "replies 0..10000 bytes / large options / own Block2; directed far-jump sequences per SZX. Monitors: panic capture "
               "on both entry points, error renderability, buffered-upload length before/after each call (hook) and body handed "
               "over. distinct_nontrivial = distinct (budget bucket, block option shapes, overhead>budget, type, outcome)"),
-        quick=[L("dbg", 1, 6000, 16), L("rel", 1, 6000, 16), L("miri", 0, 5, 12, 1500)],
+        quick=[L("dbg", 1, 6000, 16), L("rel", 1, 6000, 16), L("udp", 1, 2000, 4), L("miri", 0, 5, 12, 1500)],
         thorough=[L("dbg", 2, 150000, 16, 3600), L("rel", 2, 150000, 16, 3600), L("asan", 0, 20000, 8), L("miri", 0, 60, 8, 3600)],
     ),
     "C12": dict(
